@@ -47,6 +47,7 @@ inductive Err where
   | noColumns         -- ValueError("No columns found that match feature names …")
   | emptyData         -- PythonDictFramework: ValueError("Data cannot be empty")
   | noGroup           -- prepare: no / several feature groups for a feature name
+  | duplicate         -- `Features.__init__`: the same feature (string) twice in one request
   | fuel              -- model artefact: recursion budget exhausted (never returned for well-founded graphs)
   deriving DecidableEq, Repr
 
@@ -105,6 +106,24 @@ def selectDictRows (rows : List (List Name)) (req : List Name) (o : ColOrder) : 
   if rows.isEmpty then .error .emptyData
   else (identify req (unionKeys rows) o).map (fun sel => rows.map (fun r => (sel.filter (fun k => r.contains k)).eraseDups))
 
+/-- the functions as called, ordering argument still a Python value: the guard is the first statement of
+`identify_naming_convention`, i.e. it runs *after* the python-dict framework's empty-data check -/
+def identifyRaw (req cols : List Name) (o : Option String) : Except Err (List Name) :=
+  match parseOrder o with
+  | .error e => .error e
+  | .ok o => identify req cols o
+
+def selectColsRaw (fw : Fw) (req cols : List Name) (o : Option String) : Except Err (List Name) :=
+  match parseOrder o with
+  | .error e => .error e
+  | .ok o => selectCols fw req cols o
+
+def selectDictRowsRaw (rows : List (List Name)) (req : List Name) (o : Option String) : Except Err (List (List Name)) :=
+  if rows.isEmpty then .error .emptyData
+  else match parseOrder o with
+    | .error e => .error e
+    | .ok o => selectDictRows rows req o
+
 /-! ## sub-column normalisation -/
 
 /-- `column_name.split("~")[0]` -/
@@ -136,7 +155,8 @@ def addEntry (coll : List Entry) (e : Entry) : List Entry × Bool :=
   if coll.any (sameFeat e) then (coll, false) else (coll ++ [e], true)
 
 structure GroupSpec where
-  supported : List Name                 -- `feature_names_supported()`
+  criteria : List Name                  -- base names on which `match_feature_group_criteria` answers True
+  supported : List Name                 -- `feature_names_supported()` (what `set_feature_name` consults)
   parents : List (Name × List Name)     -- base name of a derived feature ↦ names returned by `input_features` (in `list(set)` order)
   index : List Name                     -- first column of every index of the group that a link of the request refers to ([] without links)
   deriving Repr
@@ -147,10 +167,10 @@ structure World where
   deriving Repr
 
 /-- `IdentifyFeatureGroupClass` reduced to the modelled scenario: the unique group whose `feature_names_supported`
-contains the base name (`match_feature_group_criteria`); none / several = ValueError at prepare time. -/
+criteria accept the base name (`match_feature_group_criteria`); none / several = ValueError at prepare time. -/
 def owner (w : World) (n : Name) : Except Err Nat :=
   match (List.range w.groups.length).filter (fun i => match w.groups[i]? with
-      | some g => g.supported.contains (baseName n) | none => false) with
+      | some g => g.criteria.contains (baseName n) | none => false) with
   | [i] => .ok i
   | _ => .error .noGroup
 
@@ -162,7 +182,7 @@ def parentsOf (g : GroupSpec) (n : Name) : List Name :=
 /-- the auxiliary (non-requested, non-child) features `_add_filter_feature` and `_add_index_feature` add when any
 feature of group `g` is processed -/
 def auxNames (w : World) (g : GroupSpec) : List Name :=
-  ((w.filters.filter (fun f => g.supported.contains (baseName f))).map (setFeatureName g.supported)) ++
+  ((w.filters.filter (fun f => g.criteria.contains (baseName f))).map (setFeatureName g.supported)) ++
   (g.index.map (setFeatureName g.supported))
 
 def addAll (coll : List Entry) (es : List Entry) : List Entry := es.foldl (fun c e => (addEntry c e).1) coll
@@ -191,6 +211,10 @@ def processFeature (w : World) : Nat → List Entry → Feat → Except Err (Lis
 /-- `mlodaAPI._process_features` (flag every request feature) followed by `Engine.setup_features_recursion` -/
 def processRequest (w : World) (fuel : Nat) (req : List Name) : Except Err (List Entry) :=
   req.foldlM (fun c q => processFeature w fuel c { name := q, child := false, requested := true }) []
+
+/-- `mlodaAPI.__init__`: `Features(requested)` rejects a request naming the same feature twice, then plans it -/
+def prepareRequest (w : World) (fuel : Nat) (req : List Name) : Except Err (List Entry) :=
+  if req.eraseDups.length != req.length then .error .duplicate else processRequest w fuel req
 
 /-- `FeatureSet.get_initial_requested_features` of group `gid` (as a duplicate-free list; the real object is a set) -/
 def flaggedOf (coll : List Entry) (gid : Nat) : List Name :=
